@@ -54,6 +54,29 @@ mod sm {
             Regex::new(r"^\s*100.00?\s+(\d[0-9,\.]+)\s*$").unwrap();
     }
 
+    /// Verification hook: captures of the three line regexes of this module
+    /// (0 = SEC_FIRST_ROW_RE, 1 = SEC_DATA_RE, 2 = TOTAL_ROW_RE) on `s`;
+    /// None when the regex does not match, otherwise group 1 (first row,
+    /// total row) or the groups desc, alloc, fmv (data).
+    #[cfg(feature = "verif_hooks")]
+    pub fn verif_line_regex_captures(which: u8, s: &str) -> Option<Vec<String>> {
+        match which {
+            0 => SEC_FIRST_ROW_RE
+                .captures(s)
+                .map(|m| vec![m.get(1).unwrap().as_str().to_string()]),
+            1 => SEC_DATA_RE.captures(s).map(|m| {
+                vec![
+                    m.name("desc").unwrap().as_str().to_string(),
+                    m.name("alloc").unwrap().as_str().to_string(),
+                    m.name("fmv").unwrap().as_str().to_string(),
+                ]
+            }),
+            _ => TOTAL_ROW_RE
+                .captures(s)
+                .map(|m| vec![m.get(1).unwrap().as_str().to_string()]),
+        }
+    }
+
     enum State {
         LookingForHeader,
         LookingForFirstSecurityStart,
@@ -210,6 +233,15 @@ mod sm {
             }
         }
     }
+}
+
+#[cfg(feature = "verif_hooks")]
+pub use sm::verif_line_regex_captures;
+
+/// Verification hook: the allocation-table parser applied to one page.
+#[cfg(feature = "verif_hooks")]
+pub fn verif_parse_fmvs_from_page(page: &str) -> Result<(Vec<Fmv>, Decimal), SError> {
+    parse_fmvs_from_page(page)
 }
 
 /// In a page where we already know there is the allocation table, parses out
